@@ -323,6 +323,28 @@ def holder():
     def inner1():
         return sensor.top
     return [inner(), inner1()]
+
+# the same source text evaluated repeatedly while a global named like the domain comes and goes: every evaluation decides
+# afresh whether `sensor.dyn` is a python attribute or a state variable
+def dyn():
+    return str(sensor.dyn)
+
+def dyn_set(v):
+    sensor.dyn = v
+
+@service
+def probe2():
+    global sensor
+    out = [dyn()]
+    sensor = Box(dyn="global-dyn")
+    out.append(dyn())
+    dyn_set("written-to-global")
+    out.append(sensor.dyn)
+    del sensor
+    out.append(dyn())
+    dyn_set("written-to-state")
+    out.append(dyn())
+    vf.rec("probe2", out=out)
 '''
 
 
@@ -336,9 +358,12 @@ def run_priority(case):
         w.hass.states.async_set("glob.item", "state-glob", {})
         w.hass.states.async_set("sensor.c16", "state-c16", {"unit": "state-unit"})
         w.hass.states.async_set("sensor.top", "state-top", {})
+        w.hass.states.async_set("sensor.dyn", "state-dyn", {})
 
     async def main(w):
         await w.hass.services.async_call("pyscript", "probe", {}, blocking=True)
+        await w.settle()
+        await w.hass.services.async_call("pyscript", "probe2", {}, blocking=True)
         await w.settle()
 
     w, _ = run_world(main, files={"prio.py": PRIORITY_SCRIPT}, legacy=case["legacy"], pre_setup=pre, extra_functions={"vf.Box": Box}, keep=True)
@@ -347,7 +372,11 @@ def run_priority(case):
     want = {"service_over_state": True, "plain_state": "state-lone", "global_var_over_state": "global-attr", "local_over_service": "local-twin", "local_over_state": "local-lone", "enclosing_var_over_state": ["enclosing-unit", "enclosing-top"]}
     if not pr or pr[0]["out"] != want:
         viol.append({"mech": "name_priority_violated", "msg": f"expected {want} got {pr and pr[0]['out']} errors={w.logs(level='ERROR')[:1]}"})
-    return {"verdict": "violated" if viol else "held", "violations": viol, "nontrivial": True, "obs": {"priority_checks": 6, "histories": 0}, "sig": f"priority|{case['legacy']}"}
+    pr2 = [r for r in w.rec if r["tag"] == "probe2"]
+    want2 = ["state-dyn", "global-dyn", "written-to-global", "state-dyn", "written-to-state"]
+    if not pr2 or pr2[0]["out"] != want2:
+        viol.append({"mech": "name_priority_not_reevaluated", "msg": f"expected {want2} got {pr2 and pr2[0]['out']} errors={w.logs(level='ERROR')[:1]}"})
+    return {"verdict": "violated" if viol else "held", "violations": viol, "nontrivial": True, "obs": {"priority_checks": 11, "histories": 0}, "sig": f"priority|{case['legacy']}"}
 
 
 def run_case(case):
